@@ -9,6 +9,7 @@ package main
 import (
 	"bufio"
 	"context"
+	"crypto/tls"
 	"fmt"
 	"net"
 	"strings"
@@ -349,6 +350,119 @@ func sysGroupCase(idx int, muxed, window bool) (string, []int, error) {
 	return fmt.Sprintf("CHand true [HDispatch; HCloser] %s [(0, %d)]", hx.List(sched), fate), []int{fate}, nil
 }
 
+// ---- vhost muxer: several TLS users waiting in the unbuffered hand-off of a real HTTPSMuxer while the listener
+// closes.  The harness is the proxy's accept loop: it accepts a of the k waiting users (which one Accept
+// returns is observed and passed to the model as its oracle), then closes the listener; every remaining user
+// must see its connection closed.
+func vhostQueueCase(addr string, k, a int) (string, int, error) {
+	ln, err := net.Listen("tcp", net.JoinHostPort(addr, "0"))
+	if err != nil {
+		return "", 0, err
+	}
+	defer ln.Close()
+	mux, err := vhost.NewHTTPSMuxer(ln, 3*time.Second)
+	if err != nil {
+		return "", 0, err
+	}
+	l, err := mux.Listen(context.Background(), &vhost.RouteConfig{Domain: "h.test"})
+	if err != nil {
+		return "", 0, err
+	}
+	type user struct {
+		c     net.Conn
+		ended chan error
+		acc   bool
+	}
+	users := make([]*user, k)
+	byAddr := map[string]int{}
+	var sched, picks []string
+	for i := 0; i < k; i++ {
+		c, err := net.Dial("tcp", ln.Addr().String())
+		if err != nil {
+			return "", 0, err
+		}
+		u := &user{c: c, ended: make(chan error, 1)}
+		users[i] = u
+		byAddr[c.LocalAddr().String()] = i
+		_ = c.SetDeadline(time.Now().Add(4 * time.Second))
+		go func() {
+			// sends the ClientHello (SNI h.test) and waits for an answer nobody gives
+			u.ended <- tls.Client(c, &tls.Config{ServerName: "h.test", InsecureSkipVerify: true}).Handshake()
+		}()
+		sched = append(sched, fmt.Sprint(i))
+	}
+	time.Sleep(80 * time.Millisecond) // every handle goroutine has routed its connection and stands in the send
+	loop, closer := k, k+1
+	type res struct {
+		c   net.Conn
+		err error
+	}
+	accept := func() (net.Conn, error, bool) {
+		ch := make(chan res, 1)
+		go func() {
+			c, err := l.Accept()
+			ch <- res{c, err}
+		}()
+		select {
+		case r := <-ch:
+			return r.c, r.err, true
+		case <-time.After(400 * time.Millisecond):
+			return nil, nil, false
+		}
+	}
+	var accepted []net.Conn
+	for i := 0; i < a; i++ {
+		c, err, ret := accept()
+		if !ret || err != nil {
+			break
+		}
+		accepted = append(accepted, c)
+		if idx, ok := byAddr[c.RemoteAddr().String()]; ok {
+			users[idx].acc = true
+			picks = append(picks, fmt.Sprint(idx))
+			sched = append(sched, fmt.Sprint(loop), fmt.Sprint(idx))
+		}
+	}
+	_ = l.Close()
+	sched = append(sched, fmt.Sprint(closer), fmt.Sprint(closer))
+	for i := range users {
+		sched = append(sched, fmt.Sprint(i))
+	}
+	sched = append(sched, fmt.Sprint(loop))
+	reqs := make([]string, 0, k+2)
+	for range users {
+		reqs = append(reqs, "VhConn")
+	}
+	reqs = append(reqs, "VhLoop", "VhCloser")
+	var fs []string
+	open := 0
+	for i, u := range users {
+		code := 3
+		if u.acc {
+			code = 1
+		} else {
+			select {
+			case err := <-u.ended:
+				if ne, ok := err.(net.Error); !(ok && ne.Timeout()) {
+					code = 2
+				}
+			case <-time.After(900 * time.Millisecond):
+			}
+		}
+		if code == 3 {
+			open++
+		}
+		fs = append(fs, fmt.Sprintf("(%d, %d)", i, code))
+	}
+	for _, c := range accepted {
+		c.Close()
+	}
+	for _, u := range users {
+		u.c.Close()
+	}
+	return fmt.Sprintf("CVh %s %s %s %s", hx.List(reqs), hx.List(sched), hx.List(picks), hx.List(fs)), open, nil
+}
+
 // ---- group members: two members, a user connection pending in the hand-off, member 0 (or both) closed at
 // that moment, then the members' Accept calls (the harness is both proxies' accept loop).  Exported API only.
 // variant 0: nobody closes; 1: member 0 closes, then its Accept runs (the select is ambiguous: the outcome
@@ -500,6 +614,27 @@ func runHandoff(cfg *hx.RunCfg) error {
 			if f == 3 {
 				lost[name]++
 			}
+		}
+	}
+	// TLS users queued in the vhost hand-off while the listener closes
+	vqN := 6
+	if cfg.Tier != "quick" {
+		vqN = 24
+	}
+	for i := 0; i < vqN; i++ {
+		k := 2 + g.Intn(3)
+		a := []int{0, 1, 0, 2, 0, 1}[i%6]
+		text, open, err := vhostQueueCase("127.0.11.204", k, a)
+		if err != nil {
+			fails = append(fails, map[string]any{"key": "handoff-setup", "what": err.Error(), "case": "vhost queue case"})
+			continue
+		}
+		cases = append(cases, text)
+		dist["vhost-queue"]++
+		if open > 0 {
+			fails = append(fails, map[string]any{"key": "vhost-handoff-stuck-after-close",
+				"what": fmt.Sprintf("%d TLS user connection(s) routed to an https listener and waiting in the muxer's hand-off were neither accepted nor closed after the listener closed: open with no peer", open),
+				"case": text})
 		}
 	}
 	// group members' Accept against a pending hand-off
